@@ -10,8 +10,8 @@ from .boot import VERIF_DIR, HarnessError
 from .decider import Decider, derive_seed
 
 PLAN = {   # (batches, runs per batch)
-    'quick': {'C02': (16, 300), 'C17': (16, 300)},
-    'thorough': {'C02': (96, 900), 'C17': (96, 700)},
+    'quick': {'C02': (16, 100), 'C17': (16, 100)},
+    'thorough': {'C02': (96, 200), 'C17': (96, 200)},
 }
 N_GOLDEN_JOBS = 16
 
